@@ -717,3 +717,73 @@ package kcache
   loop 1 inv [tick-pending-xor-timer-running] (and (= (not (= {nextch} vnil)) (= tstate 0)) (or (= tstate 0) (= tstate 1))
         (or (= {nextch} vnil) (= {nextch} {t.nextch})) (not (= {timer} vnil)) (not {closed(t.donech)}))
 @*/
+
+/*@ iface kcache.ticker.Next
+  ensures (not (= result vnil))
+@*/
+/*@ iface kcache.ticker.Reset
+@*/
+/*@ iface kcache.ticker.Stop
+@*/
+/*@ iface kcache.ticker.Done
+  ensures (not (= result vnil))
+@*/
+/*@ iface client.ListClient.List
+@*/
+/*@ func kcache.newTicker
+  props C13
+  fresh result
+  ensures (not (= result vnil))
+@*/
+/*@ func (*kcache._lister).list
+  props C13 C12
+  requires (and (not (= {l} vnil)) (not (= {l.lc} vnil)) (not (= {l.ctx} vnil)))
+  ensures [channels-of-the-new-list-call] (and (not (= result0 vnil)) (not (= result1 vnil)))
+@*/
+/*@ assumed func context.WithCancel
+  ensures (and (not (= result0 vnil)) (not (= result1 vnil)))
+@*/
+
+/*@ neverclosed kcache._lister.resultch
+@*/
+
+/*@ func (*kcache._lister).run
+  props C13 C12 C03
+  theory lists
+  requires [valid-l] (and (not (= {l} vnil)) (not (= {l.lc} vnil)) (not (= {l.ctx} vnil)) (not (= {l.resultch} vnil)) (not (= {l.client} vnil)) (not (= {l.log} vnil)))
+  requires [has-closed-nothing] (forall ((x V)) (not (select $closed x)))
+  ghost lc : Int := 0
+  ghost started : Int := 0
+  ghost taken : Int := 0
+  ghost delivered : Int := 0
+  ghost resetDone : Bool := false
+  at call(list) assert [one-list-at-a-time] (= started delivered)
+  at call(list) set started := (+ started 1)
+  at recv(runch) set taken := (+ taken 1)
+  at send(resultch) assert [delivers-the-result-of-the-finished-list] (= taken (+ delivered 1))
+  at send(resultch) set delivered := (+ delivered 1)
+  at send(resultch) set resetDone := false
+  at call(Reset) set resetDone := true
+  at call(Next) assert [timer-restarted-after-the-result-was-consumed] resetDone
+  at call(ShutdownInitiated) assert [shutdown-initiated-once] (= lc 0)
+  at call(ShutdownInitiated) set lc := 1
+  at call(ShutdownCompleted) assert [after-shutdown-initiated] (= lc 1)
+  loop 1 inv [exactly-one-phase] (and (not (= {ticker} vnil)) (not (= {donech} vnil)) (= lc 0)
+        (or (and (not (= {runch} vnil)) (= {resultch} vnil) (= {tickch} vnil) (= started (+ taken 1)) (= taken delivered))
+            (and (= {runch} vnil) (not (= {resultch} vnil)) (= {resultch} {l.resultch}) (= {tickch} vnil) (= started taken) (= taken (+ delivered 1)))
+            (and (= {runch} vnil) (= {resultch} vnil) (not (= {tickch} vnil)) (= started taken) (= taken delivered))))
+@*/
+
+/*@ func (*kcache._lister).executeList
+  props C03 C14
+  theory lists
+  requires (and (not (= {l} vnil)) (not (= {l.client} vnil)) (not (= {l.log} vnil)))
+  ghost clientList : V := vnil
+  ghost clientErr : V := vnil
+  at call(List) assert [lists-everything-with-empty-options] (= $1 {zero:meta/v1.ListOptions})
+  at call(List).after set clientList := $result0
+  at call(List).after set clientErr := $result1
+  exit [client-error-is-reported] (=> (not (= clientErr vnil)) (and (not (= (|kcache.listResult.err| result) vnil)) (= (|kcache.listResult.list| result) vnil)))
+  exit [success-returns-the-client-list-unmodified] (=> (= (|kcache.listResult.err| result) vnil) (and (= clientErr vnil) (= (|kcache.listResult.list| result) clientList)))
+  exit [error-or-list] (= (= (|kcache.listResult.err| result) vnil) (not (= (|kcache.listResult.list| result) vnil)))
+@*/
